@@ -183,6 +183,47 @@ theorem c13_error_iff (r : LRate) (m : Int) :
               intro hc; apply hb; right; omega
             · intro _; exact ⟨_, rfl⟩
 
+/-- **C13 (stability).**  A rate returned by `Recalculate` is a fixed point of `Recalculate`
+    with the same minimum: converting an already converted rate changes nothing (so `Optimize`
+    after `Optimize`, or `Flatten` after `Flatten`, returns its argument). -/
+theorem c13_idempotent (r : LRate) (m : Int) (r' : LRate) (h : recalculate r m = .ok r') :
+    recalculate r' m = .ok r' := by
+  obtain ⟨hI, hQ, hm, hc⟩ := ok_cases r m r' h
+  rcases hc with ⟨rfl, hb⟩ | ⟨rfl, hmpos, _, _, hlt⟩
+  · -- r' = ⟨k, 1⟩ with k > m or 0 < k = m: the first branch again
+    generalize hk : r.interval.toNat / r.quantity = k at hb
+    have hkpos : 0 < k := by rcases hb with hb | hb <;> omega
+    have hv : (⟨(k : Int), 1⟩ : LRate).isValid = none :=
+      (isValid_none_iff _).2 ⟨by simp only; omega, by simp⟩
+    unfold recalculate
+    rw [hv]
+    simp only
+    rw [if_neg (by omega)]
+    have e : ((k : Int).toNat / 1 : Nat) = k := by simp
+    rw [e]
+    rw [if_pos (by rcases hb with hb | hb <;> omega)]
+  · -- r' = ⟨m, q⟩, q = ⌊Q·m/I⌋ < 2^64
+    generalize hq : r.quantity * m.toNat / r.interval.toNat = q at hlt
+    have hqpos : 0 < q := by
+      have hv := (c13_valid r m _ h).1
+      rw [hq] at hv
+      exact ((isValid_none_iff _).1 hv).2
+    have hv : (⟨m, q⟩ : LRate).isValid = none := (isValid_none_iff _).2 ⟨hmpos, hqpos⟩
+    have hmn : 0 < m.toNat := by omega
+    have hmi : (m.toNat : Int) = m := by omega
+    unfold recalculate
+    rw [hv]
+    simp only
+    rw [if_neg (by omega)]
+    by_cases hq1 : q = 1
+    · subst hq1
+      have e : (m.toNat / 1 : Nat) = m.toNat := by simp
+      rw [e, if_pos (by omega), hmi]
+    · have hdl : m.toNat / q < m.toNat := Nat.div_lt_self hmn (by omega)
+      rw [if_neg (by omega), if_neg (by omega)]
+      have e : q * m.toNat / m.toNat = q := Nat.mul_div_cancel q hmn
+      simp only [recalcQuantity, e, hlt, if_true]
+
 /-- `Optimize` and `Flatten` are `Recalculate` at the fixed minimums, so the three
     theorems above apply to them verbatim. -/
 theorem c13_optimize_flatten (r : LRate) :
@@ -199,6 +240,7 @@ example : recalculate ⟨20000001, 2⟩ 10000000 = .ok ⟨10000000, 1⟩ := by r
 /-! Non-vacuity: both branches and the error cases are inhabited. -/
 example : recalculate ⟨1000000000, 100⟩ 10000000 = .ok ⟨10000000, 1⟩ := by rfl
 example : recalculate ⟨1000000000, 1000⟩ 10000000 = .ok ⟨10000000, 10⟩ := by rfl
+example : recalculate ⟨10000000, 10⟩ 10000000 = .ok ⟨10000000, 10⟩ := by rfl  -- fixed point (c13_idempotent)
 example : recalculate ⟨3, 7⟩ 0 = .error .convertedIntervalZero := by rfl
 example : recalculate ⟨1, 2 ^ 64 - 1⟩ 2 = .error .quantityUnrepresentable := by rfl
 
